@@ -624,4 +624,114 @@ def svmRowOk (r : SvmRow) : Bool :=
   r.labels.all (tokenOk [COMMA, COLON]) &&
   r.feats.all (fun kv => tokenOk [COLON] kv.1 && tokenOk [COLON] kv.2)
 
+
+/-! ## C.3 ARFF dense data lines: `ArffLineReader._dense` / `_dense_simple` (coba/pipes/readers.py)
+
+The fallback parser `_dense_advanced` is not modelled (`Err.cobaException` stands for "left the
+modelled part": the harness compares only lines the model parses on the simple path). -/
+
+def SQ : Nat := 39
+def BS : Nat := 92
+def TAB : Nat := 9
+
+/-- the csv dialect ArffLineReader uses: `skipinitialspace=True, escapechar='\\', doublequote=False`,
+the delimiter and quote character it has settled on (csv's default `"` while none was seen) -/
+def arffDialect (delim : Nat) (qc : Option Nat) : Dialect := ⟨delim, some (qc.getD DQ), some BS, false, true⟩
+
+/-- `next(csv.reader([line], **dialect))` -/
+def csvFirst (d : Dialect) (line : Text) : Except Err (List Text) :=
+  match csvRecords d CsvR.reset [line] with
+  | .error e => .error e
+  | .ok [] => .error .stopIteration
+  | .ok (r :: _) => .ok r
+
+/-- state of an ArffLineReader for dense data -/
+structure ALR where
+  started : Bool          -- `_dense` (first line) has run
+  advanced : Bool         -- the reader has switched to `_dense_advanced`
+  qc : Option Nat         -- `self._quotechar`
+  delim : Nat
+  deriving DecidableEq, Repr
+
+def ALR.init : ALR := ⟨false, false, none, COMMA⟩
+
+/-- the quote-character bookkeeping of `_dense_simple` (note: both tests read the value
+`self._quotechar` had on entry).  `none` = switch to the fallback parser. -/
+def simpleQuote (qc : Option Nat) (line : Text) : Option (Option Nat) :=
+  let hasDq := line.contains DQ
+  let hasSq := line.contains SQ
+  let afterDq : Option (Option Nat) :=
+    if hasDq then (if qc = some DQ then some qc else if qc = none then some (some DQ) else none) else some qc
+  match afterDq with
+  | none => none
+  | some q1 =>
+    if hasSq then (if qc = some SQ then some q1 else if qc = none then some (some SQ) else none) else some q1
+
+/-- `_dense_simple` -/
+def arffSimple (n : Nat) (s : ALR) (line : Text) : Except Err (ALR × List Text) :=
+  match simpleQuote s.qc line with
+  | none => .error .cobaException            -- fallback parser: not modelled
+  | some qc1 =>
+    match csvFirst (arffDialect s.delim qc1) line with
+    | .error e => .error e
+    | .ok r => if r.length = n then .ok ({ s with qc := qc1 }, r) else .error .cobaException
+
+/-- `_dense` (first data line): choose quote character and delimiter, then parse -/
+def arffFirst (n : Nat) (line : Text) : Except Err (ALR × List Text) :=
+  let hasDq := line.contains DQ
+  let hasSq := line.contains SQ
+  if hasDq && hasSq then .error .cobaException          -- fallback parser: not modelled
+  else
+    let qc : Option Nat := if hasDq then some DQ else if hasSq then some SQ else none
+    match csvFirst (arffDialect COMMA qc) line with
+    | .error e => .error e
+    | .ok r =>
+      if r.length = n then arffSimple n ⟨true, false, qc, COMMA⟩ line
+      else match csvFirst (arffDialect TAB qc) line with
+        | .error e => .error e
+        | .ok r2 => if r2.length = n then arffSimple n ⟨true, false, qc, TAB⟩ line else .error .cobaException
+
+def arffLineStep (n : Nat) (s : ALR) (line : Text) : Except Err (ALR × List Text) :=
+  if s.started then arffSimple n s line else arffFirst n line
+
+/-- all data lines of a dense file through one ArffLineReader -/
+def arffLines (n : Nat) (s : ALR) : List Text → Except Err (List (List Text))
+  | [] => .ok []
+  | l :: ls =>
+    match arffLineStep n s l with
+    | .error e => .error e
+    | .ok (s1, r) => match arffLines n s1 ls with
+      | .error e => .error e
+      | .ok rs => .ok (r :: rs)
+
+/-! ### the Weka / OpenML writer for dense data (spec side) -/
+
+/-- backslash-escape: the quote character and the backslash always, other characters at the
+writer's discretion (`also`; Weka escapes `"` `'` `%`, liac-arff only quotes and backslash) -/
+def arffEscape (q : Nat) (also : Nat → Bool) : Text → Text
+  | [] => []
+  | c :: t => if c = q ∨ c = BS ∨ also c = true then BS :: c :: arffEscape q also t else c :: arffEscape q also t
+
+/-- a value may be written bare when it holds no delimiter, quote characters, backslash, line
+break, does not start with a blank (blanks after a delimiter are skipped) -/
+def bareOk (v : Text) : Bool :=
+  v.all (fun c => !(c == COMMA || c == SQ || c == DQ || c == BS || isNl c)) &&
+  (match v with | c :: _ => c != 32 | [] => true)
+
+/-- one value as written: quoted with `q` (writer's choice, forced unless `bareOk`) or bare -/
+def arffWriteTok (q : Nat) (also : Nat → Bool) (x : Bool × Text) : Text :=
+  if x.1 || !bareOk x.2 then q :: (arffEscape q also x.2 ++ [q]) else x.2
+
+/-- a row: values separated by a comma and `pad` blanks -/
+def arffWriteRow (q : Nat) (also : Nat → Bool) (pad : Nat) : List (Bool × Text) → Text
+  | [] => []
+  | [x] => arffWriteTok q also x
+  | x :: y :: xs => arffWriteTok q also x ++ COMMA :: (List.replicate pad 32 ++ arffWriteRow q also pad (y :: xs))
+
+/-- hypotheses on a row: at least one value, a lone empty value is quoted, and the *other* quote
+character occurs in no value (it would be written escaped and send coba to its fallback parser) -/
+def arffRowOk (q : Nat) (row : List (Bool × Text)) : Bool :=
+  row ≠ [] && row.all (fun x => x.2.all (fun c => !(isNl c) && !((c == SQ || c == DQ) && c != q))) &&
+  (match row with | [x] => x.2 ≠ [] || x.1 | _ => true)
+
 end Coba.C12
